@@ -56,6 +56,8 @@ class Seq:
         self.illegal = None      # description of the injected illegal step
         self.want_illegal = False
         self.steps = 0
+        self.write_weight = 1     # out of 4: probability that a value member is written instead of read
+        self.prefer = None        # wrapper preferred where legal
 
     def c(self):
         self.exp.append("c=%d" % self.cur)
@@ -93,9 +95,12 @@ def field_step(data, sq, L, lay, fields, k, vals, force_moving=False):
     legal = ["p", "i", "d", "j", "s"] if sq.cur == req else ["i", "j"]
     if force_moving:
         legal = [w for w in legal if w in MOVING]
-    w = data.draw(st.sampled_from(legal))
+    if sq.prefer in legal and data.draw(st.integers(0, 3)) != 0:
+        w = sq.prefer
+    else:
+        w = data.draw(st.sampled_from(legal))
     sq.wrappers.add(w)
-    write = m.kind in ("scalar", "enum", "set") and w != "s" and data.draw(st.integers(0, 3)) == 0
+    write = m.kind in ("scalar", "enum", "set") and w != "s" and data.draw(st.integers(0, 3)) < sq.write_weight
     if write:
         nv = data.draw(values.member_value(m))
         sq.tok += ["f", str(k), w, "w", "%x" % nv]
